@@ -589,7 +589,9 @@ func (df *DataFrame) applyRowWise(fn FuncType) (any, error) {
 
 				// execute the custom function
 				res := fn(rowData)
+				verifGate("before-send", i)
 				resultsChan <- rowResult{index: i, data: res}
+				verifGate("after-send", i)
 
 			}
 		}()
